@@ -262,7 +262,9 @@ def exec_block(rt, fr, block):
                 if (yield from exec_block(rt, fr, st[2])):
                     return RET
         elif op == "read":
-            fr.received.append(("read", st[1], rt.read(fr, st[1])))
+            v = rt.read(fr, st[1])
+            # type-sensitive: 1, True and 1.0 are different values to a program
+            fr.received.append(("read", st[1], (type(v).__name__, v)))
         elif op == "ret":
             if st[1] == "result":
                 rt.result(fr, fr.value())
